@@ -629,6 +629,7 @@ func (c *MJMLComponent) RegisterCarouselCSS(css string) {
 
 // collectCarouselCSS recursively collects carousel CSS from all components
 func (c *MJMLComponent) collectCarouselCSS() {
+	c.carouselCSS.Reset()
 	if c.Body != nil {
 		c.collectCarouselCSSFromComponent(c.Body)
 	}
